@@ -232,7 +232,7 @@ func (c *Ctx) checkConvLoops(f, subImage *ssa.Function, full bool) {
 					if t, idx, ok := shapeElem(bo.Y); ok && t == padded && idx == int64(2+k) {
 						okB = true
 					} else if ok {
-						bad = fmt.Sprintf("the loop over spatial axis %d of the padded input is bounded by extent %d of %s instead of extent %d: for non-square inputs windows are missed (or read past the edge)", k, idx, c.term(t, 0), 2+k)
+						bad = fmt.Sprintf("the loop over spatial axis %d of the padded input is bounded by extent %d of %s instead of extent %d of the padded input: windows are missed (non-square inputs; padded positions beyond the unpadded extent) or read past the edge", k, idx, c.term(t, 0), 2+k)
 					}
 				}
 			}
